@@ -36,3 +36,7 @@ reg('C11', 'propchecks.c11', 'proof', T1[:1] + [('Bashlex.Q.run_touched_irreleva
 
 reg('C09', 'propchecks.lrcheck', 'proof', T1, ['the <= direction (every derivable sentence is accepted) is not proved: it is evaluated against an Earley recogniser on all enumerated token sequences', CORR])
 reg('C08', 'propchecks.c08', 'proof', T1, [ASCII, DEPTH, CORR])
+
+C15M = 'Bashlex.Props.C15'
+reg('C15', 'propchecks.c15', 'proof', [('Bashlex.Props.C15', C15M), ('Bashlex.Props.enters_visit', C15M), ('Bashlex.Props.reached_noprune', C15M),
+     ('Bashlex.Props.visit_balanced', C15M), ('Bashlex.Props.preorder_mapPos', C15M), ('Bashlex.Props.kinds_covered', C15M)], [CORR])
